@@ -347,6 +347,42 @@ impl AWorld {
                     ("remove_file", 1) => unit(self.on(fsid, &a(0), |q| async move { q.remove_file().await }).await),
                     ("remove_dir", 1) => unit(self.on(fsid, &a(0), |q| async move { q.remove_dir().await }).await),
                     ("remove_dir_all", 1) => unit(self.on(fsid, &a(0), |q| async move { q.remove_dir_all().await }).await),
+                    ("probe_session", 2) => {
+                        let b = unhex(&args[1][1..]);
+                        enc_res(
+                            Ok(self
+                                .on(fsid, &a(0), |q| async move {
+                                    async fn obs(q: &AsyncVfsPath) -> String {
+                                        let len = q.metadata().await.map(|m| m.len.to_string()).unwrap_or_else(|_| "-".into());
+                                        let content = match q.open_file().await {
+                                            Ok(mut f) => {
+                                                let mut v = vec![];
+                                                match f.read_to_end(&mut v).await {
+                                                    Ok(_) => crate::util::hex(&v),
+                                                    Err(_) => "-".into(),
+                                                }
+                                            }
+                                            Err(_) => "-".into(),
+                                        };
+                                        format!("{}:{}", len, content)
+                                    }
+                                    let mut h = q.create_file().await?;
+                                    let o1 = obs(&q).await;
+                                    h.write_all(&b).await?;
+                                    let o2 = obs(&q).await;
+                                    h.flush().await?;
+                                    let o3 = obs(&q).await;
+                                    drop(h);
+                                    let o4 = obs(&q).await;
+                                    // o2 (written, not flushed) is not compared: whether unflushed bytes are visible is the
+                                // business of the handle type (std File writes through, async-std File buffers)
+                                let _ = o2;
+                                Ok(format!("{}|{}|{}", o1, o3, o4))
+                                })
+                                .await),
+                            |s| s,
+                        )
+                    }
                     ("write", 2) | ("touch", 1) => {
                         let b = if args.len() == 2 { unhex(&args[1][1..]) } else { vec![] };
                         unit(
@@ -576,6 +612,11 @@ pub fn run(o: &Opts) -> Report {
                     break;
                 }
                 let mut op: Op = gen_op(&mut rng, &ts, &snap, &cfg);
+                if op.name == "write" && rng.chance(1, 2) {
+                    // the same session with the file observed while the handle is open (before and
+                    // after the write, after the flush, after the drop)
+                    op.name = "probe_session";
+                }
                 if cfg_kind.contains("ghost") && matches!(op.name, "remove_dir_all" | "copy_dir" | "move_dir") {
                     // these abort at the ghost entry; what they did before depends on the listing
                     // order (HashMap), which the two worlds do not share: walk instead
